@@ -47,6 +47,11 @@ type Script struct {
 	Seps []string `json:"seps"`
 	// Lead is written before the first statement.
 	Lead string `json:"lead"`
+	// RepA, RepB: when RepA > 0 the statements are RepA statements, RepB other
+	// statements and the first RepA once more: the script can be delivered as
+	// the FILE arguments a.pql b.pql a.pql (one file named twice).
+	RepA int `json:"rep_a,omitempty"`
+	RepB int `json:"rep_b,omitempty"`
 }
 
 // scriptWire is the JSON form: byte slices (base64), because scripts may
@@ -56,10 +61,12 @@ type scriptWire struct {
 	Seps  [][]byte `json:"seps"`
 	Lead  []byte   `json:"lead"`
 	Text  string   `json:"text_for_reading"`
+	RepA  int      `json:"rep_a,omitempty"`
+	RepB  int      `json:"rep_b,omitempty"`
 }
 
 func (s *Script) MarshalJSON() ([]byte, error) {
-	w := scriptWire{Lead: []byte(s.Lead), Text: s.Text()}
+	w := scriptWire{Lead: []byte(s.Lead), Text: s.Text(), RepA: s.RepA, RepB: s.RepB}
 	for i := range s.Stmts {
 		w.Stmts = append(w.Stmts, []byte(s.Stmts[i]))
 		w.Seps = append(w.Seps, []byte(s.Seps[i]))
@@ -73,6 +80,7 @@ func (s *Script) UnmarshalJSON(b []byte) error {
 		return err
 	}
 	s.Lead = string(w.Lead)
+	s.RepA, s.RepB = w.RepA, w.RepB
 	s.Stmts, s.Seps = nil, nil
 	for i := range w.Stmts {
 		s.Stmts = append(s.Stmts, string(w.Stmts[i]))
@@ -406,6 +414,26 @@ func directedScripts() []*Script {
 	return out
 }
 
+// repeatedFileScripts: scripts of the form A B A (statement blocks), to be
+// delivered as three FILE arguments of which the first and the last are one
+// and the same file: B redefines what A defined, the second A defines it back.
+func repeatedFileScripts() []*Script {
+	blocksA := [][]string{{"let lim = 10", "T | take lim"}, {"let lim = 10"}, {"T | count"}, {"let s = 'a'", "let lim = 1", "T | where c == s | take lim"}, {"!", "let lim = 3"}}
+	blocksB := [][]string{{"let lim = 100", "U | take lim"}, {"let lim = lim * 2"}, {"U | count"}, {"let s = 'b'", "T | where c == s"}, {"T | bogus"}}
+	var out []*Script
+	for _, a := range blocksA {
+		for _, b := range blocksB {
+			s := &Script{RepA: len(a), RepB: len(b)}
+			for _, st := range append(append(append([]string{}, a...), b...), a...) {
+				s.Stmts = append(s.Stmts, st)
+				s.Seps = append(s.Seps, ";\n")
+			}
+			out = append(out, s)
+		}
+	}
+	return out
+}
+
 func genScript(rng *rand.Rand) *Script {
 	switch rng.Intn(8) {
 	case 0, 1:
@@ -556,6 +584,7 @@ func run(c *mon.Custom) {
 	}
 	nRandom := len(scripts)
 	scripts = append(scripts, directedScripts()...)
+	scripts = append(scripts, repeatedFileScripts()...)
 	// model expectations, in child processes, batches of 50
 	expects := make([]*Expect, len(scripts))
 	var wg sync.WaitGroup
@@ -602,6 +631,10 @@ func run(c *mon.Custom) {
 	}
 	var jobs []job
 	for i := range scripts {
+		if scripts[i].RepA > 0 {
+			jobs = append(jobs, job{i, "samefile", rng.Int63()}, job{i, "stdin", rng.Int63()})
+			continue
+		}
 		if i >= nRandom {
 			// the directed scripts: one delivery each in the quick tier, two otherwise
 			jobs = append(jobs, job{i, deliveries[i%len(deliveries)], rng.Int63()})
@@ -701,6 +734,19 @@ func checkDelivery(c *mon.Custom, cli string, s *Script, e *Expect, delivery str
 			args = []string{write("a.pql", ps[0]), write("b.pql", ps[1]), "-"}
 			stdin = ps[2]
 		}
+	case "samefile":
+		// a.pql b.pql a.pql: one file named twice among the FILE arguments
+		blk := func(from, to int) string {
+			var sb strings.Builder
+			for i := from; i < to; i++ {
+				sb.WriteString(s.Stmts[i])
+				sb.WriteString(s.Seps[i])
+			}
+			return sb.String()
+		}
+		a := write("a.pql", blk(0, s.RepA))
+		b := write("b.pql", blk(s.RepA, s.RepA+s.RepB))
+		args = []string{a, b, a}
 	case "manyfiles":
 		// the script cut in two with a long run of empty files (and some blank ones) in between
 		ps := cut(2)
